@@ -496,3 +496,68 @@ Lemma example_expected_no_reply :
   | _ => False
   end.
 Proof. vm_compute. repeat split; reflexivity. Qed.
+
+(* ------------------------------------------------------------------------------------------ *)
+(* Bodies over 1023 bytes: the universal fact                                                 *)
+(* ------------------------------------------------------------------------------------------ *)
+(* whatever frame the decoder accepts, the body it delivers has at most 1023 bytes (the length field
+   has ten bits and the body is cut to it) *)
+Lemma land1023_le a : N.land a 1023 <= 1023.
+Proof.
+  change (N.land a 1023) with (N.land a (N.ones 10)). rewrite N.land_ones. change (2 ^ 10) with 1024. lia.
+Qed.
+
+Lemma parse_payload_body_short p m : parse_payload p = Ok m -> (length (m_body m) <= 1023)%nat.
+Proof.
+  unfold parse_payload.
+  destruct (negb (xor_all p =? 0)); [discriminate|].
+  destruct (len p <? 4); [discriminate|].
+  destruct (len p <? _); [discriminate|].
+  destruct (_ && _); [discriminate|].
+  destruct (negb _); [discriminate|].
+  intros H. apply (f_equal (fun r => match r with Ok x => x | _ => m end)) in H. cbv beta iota in H.
+  rewrite <- H. clear H. cbn [m_body].
+  match goal with |- (length (sub _ ?a (?a + ?b)) <= _)%nat =>
+    pose proof (sub_length_le p a (a + b)) as L;
+    assert (B : b <= 1023) by apply land1023_le
+  end.
+  lia.
+Qed.
+
+Theorem decode_body_short f m : decode f = Ok m -> (length (m_body m) <= 1023)%nat.
+Proof.
+  rewrite decode_unfold. destruct (unescape f) as [p| |]; cbn [bind]; try discriminate.
+  apply parse_payload_body_short.
+Qed.
+
+(* hence NO frame - in particular none that CreateCommandData produces, for any Terminal, command and
+   serial - decodes to a body of 1024 bytes or more: a custom body that does not fit the length field
+   is never delivered as it was passed *)
+Theorem body_over_1023_never_delivered t cmd body m :
+  (1024 <= length body)%nat -> decode (snd (create_command t cmd body)) = Ok m -> m_body m <> body.
+Proof.
+  intros L D E. apply decode_body_short in D. rewrite E in D. lia.
+Qed.
+
+(* ------------------------------------------------------------------------------------------ *)
+(* A frame with the fragment bit handed to ExpectedReply                                      *)
+(* ------------------------------------------------------------------------------------------ *)
+(* NOT repaired (known finding C20/expected-reply-fragment): the simulator never generates such a frame
+   (m_sum = 0 in frames_decode), but ExpectedReply takes any hex string.  For packet 1 of 2 of a 0x0200
+   it predicts a 0x8001 built from the packet alone; the server answers nothing until the transfer is
+   complete (the packet is not complete: writer_reply is quiet) *)
+Definition ex_fragment : list N :=
+  let p := [2; 0; 32; 3; 1; 56; 0; 19; 128; 0; 0; 9; 0; 2; 0; 1; 7; 8; 9] in escape (p ++ [xor_all p]).
+
+Lemma refuted_expected_reply_fragment :
+  match dm ex_fragment with
+  | [d] =>
+    m_id (d_m d) = 0x0200 /\ In (m_id (d_m d)) sim_reply_ids /\ m_frag (d_m d) = 1 /\
+    m_sum (d_m d) = 2 /\ m_no (d_m d) = 1 /\ has_complete d = false /\ body_wf (d_m d) = true /\
+    writes (snd (step (final (init [d]) [MLook; MSend]) MReply)) = [] /\
+    writes (run [d]) = [] /\
+    snd (expected_reply (sim0 V2013 [1]) 0 ex_fragment) =
+      Some [126; 128; 1; 0; 5; 1; 56; 0; 19; 128; 0; 0; 0; 0; 9; 2; 0; 0; 37; 126]
+  | _ => False
+  end.
+Proof. vm_compute. repeat split; try reflexivity. do 3 right. left. reflexivity. Qed.
